@@ -755,6 +755,10 @@ impl RADAU {
                             // Update derivatives at new (x, y).
                             f.ode(x, &y, &mut f0);
                             evals.ode += 1;
+                            // The error scale belongs to the state: refresh it
+                            for i in 0..n {
+                                scal[i] = atol[i] + rtol[i] * y[i].abs();
+                            }
                         }
                         ControlFlag::XOut(xo) => {
                             xout = Some(xo);
